@@ -102,6 +102,21 @@ def r15_2(ctx):
     return r
 
 
+def r15_6(ctx):
+    r = Rule("R15.6", "the pragma is called as the identifier the annotation names: it is built as a plain (unmarked) identifier, not as a fresh private one",
+             "a private identifier is a new binding: the user's `h` gets renamed by hygiene and the calls go to an unbound name")
+    pf = C.role_or_fail(ctx, r, "pragma_fn")
+    if not pf:
+        return r
+    r.saw(pf["path"])
+    priv = [n for n in walk(pf["body"]) if "private_ident" in (n.get("mac") or [])]
+    fresh = [n for n in walk(pf["body"]) if n.get("k") in ("Call", "MethodCall") and (n.get("callee") or "").endswith(("Mark::new", "Mark::fresh", "SyntaxContext::apply_mark"))]
+    ok = not priv and not fresh
+    r.ob("pragma function builds no private / freshly marked identifier itself", ok, C.mloc(pf, (priv or fresh or [pf])[0]),
+         "quote_ident! (empty syntax context) or the import registry" if ok else "`private_ident!` / a fresh mark is applied to the pragma name")
+    return r
+
+
 def r15_3(ctx):
     r = Rule("R15.3", "one factory: element and fragment builders both take their callee from the pragma function",
              "a builder that bypasses the pragma function ignores the pragma")
@@ -262,7 +277,7 @@ def _chain_after(root, node):
 
 
 def rules(ctx):
-    return [r15_1, r15_2, r15_3, r15_4, r15_5]
+    return [r15_1, r15_2, r15_3, r15_6, r15_4, r15_5]
 
 
 EXPLANATION = (
